@@ -1068,6 +1068,36 @@ pub fn transcript(seed: u64) -> Vec<(String, String)> {
         model.set_range(1000, &vals[..100]);
         t.push(("pm depth20 equals ideal".into(), format!("{}", model.root() == pm20.root())));
     }
+    // seeded tree histories (including rejected and boundary batches) on the persistent tree: outcome, root and
+    // leaf count after every operation must not depend on the pool size
+    #[cfg(feature = "pm")]
+    {
+        let known = std::collections::HashSet::new();
+        for k in 0..6u64 {
+            let g = crate::e1::GenCfg { prop: "C08".into(), allow_rln: false, allow_pm: true, allow_reopen: false, max_steps: 30, deep: false };
+            let tr = crate::e1::generate(seed.wrapping_mul(31).wrapping_add(k), &g);
+            let dir = std::env::temp_dir().join(format!("zk-tr-{}-{}", std::process::id(), k));
+            let mut ctx = crate::e1::Ctx::new("", &known, &dir);
+            let mut line = String::new();
+            if let Ok(mut node) = crate::e1::Node::create("pm", tr.depth, &tr.store, &dir) {
+                for st in &tr.steps {
+                    if matches!(st.op, crate::e1::Op::Reopen { .. } | crate::e1::Op::Flush) {
+                        continue;
+                    }
+                    // the state-corrupting shape of the mixed batch arm is an open known finding (it may panic)
+                    if crate::e1::matching_signatures("pm", &st.op, &node.model).contains(&"pm_batch_mixed") {
+                        continue;
+                    }
+                    let r = guarded(|| node.apply(st, &crate::io::ReadPlan::clean(), &tr.store, &mut ctx));
+                    let tag = match r { Ok(Ok(())) => "O", Ok(Err(_)) => "E", Err(_) => "P" };
+                    let root = node.read_root().map(|x| hex(&fr_to_le32(&x)[..6])).unwrap_or_default();
+                    line.push_str(&format!("{}{}:{}:{} ", st.op.kind().chars().next().unwrap_or('?'), tag, root, node.observed_hwm()));
+                }
+            }
+            let _ = std::fs::remove_dir_all(&dir);
+            t.push((format!("pm history {k} depth {}", tr.depth), format!("{:016x} {}", fnv_bytes(line.as_bytes()), &line[..line.len().min(90)])));
+        }
+    }
     // witness, witness map, proof values, verdicts
     let mut rln = rln;
     let secret = fr_from_le(&rng.bytes(32));
